@@ -23,9 +23,10 @@ def main():
     for p in props:
         plug = importlib.import_module("props." + p)
         variants.add(getattr(plug, "VARIANT", "asan"))
-        if os.path.isdir(os.path.join(vcheck.VERIF, "ocaml", p)):
-            vcheck.build_driver(p, log)
-            log("driver %s" % p)
+        d = getattr(plug, "DRIVER", p)
+        if os.path.isdir(os.path.join(vcheck.VERIF, "ocaml", d)):
+            vcheck.build_driver(d, log)
+            log("driver %s" % d)
     for v in sorted(variants):
         vcheck.build_lib(v, log)
     log("setup done")
